@@ -125,3 +125,35 @@ func LinLen(xs []uint64, n, j, w int) (int, int, int) {
 	ys := make([]uint64, n)
 	return len(xs[1:]), len(ys), w * (j + 1)
 }
+
+// ---- generic rules added after red-team round 6
+func BadCountNarrow(ds []int32, m int32) []uint16 {
+	counts := make([]uint16, m)
+	for _, d := range ds {
+		if d < m {
+			counts[d]++
+		}
+	}
+	return counts
+}
+func GoodCountBounded(w uint8) uint8 {
+	n := uint8(0)
+	for j := 0; j < 8; j++ {
+		if w&(1<<uint(j)) != 0 {
+			n++
+		}
+	}
+	return n
+}
+func GoodCountWide(ds []int32, m int32) []int32 {
+	counts := make([]int32, m)
+	for _, d := range ds {
+		if d < m {
+			counts[d]++
+		}
+	}
+	return counts
+}
+func BadMul32(q, size int32, pl uint) int32  { return q * size >> pl }
+func GoodMul64(q, size int32, pl uint) int32 { return int32(uint64(q) * uint64(size) >> pl) }
+func GoodMulBit(flag, cnt int32) int32       { return (flag & 1) * cnt }
